@@ -103,7 +103,10 @@ func (kc *KeepClient) uploadToKeepServer(host string, hash string, body io.Reade
 	response := strings.TrimSpace(string(respbody))
 	if err2 != nil && err2 != io.EOF {
 		DebugPrintf("DEBUG: [%s] Upload %v error: %v response: %v", reqid, url, err2.Error(), response)
-		uploadStatusChan <- uploadStatus{err2, url, resp.StatusCode, rep, response}
+		// The response body (the locator) could not be read
+		// completely, so even a 200 status cannot be used as a
+		// confirmation: report it like a connection error.
+		uploadStatusChan <- uploadStatus{err2, url, 0, 0, response}
 	} else if resp.StatusCode == http.StatusOK {
 		DebugPrintf("DEBUG: [%s] Upload %v success", reqid, url)
 		uploadStatusChan <- uploadStatus{nil, url, resp.StatusCode, rep, response}
